@@ -1,5 +1,6 @@
 import Firebolt.Properties.C01
 import Firebolt.Properties.ExecCompose
+import Firebolt.Properties.ExecNet
 /-!
 # C03 — Clean shutdown drains the whole pipeline and orders node lifecycles
 The invariants under every interleaving are proved on the node component model (`Properties/ExecCascade.lean`, imported by
@@ -69,5 +70,37 @@ theorem child_accepts_upstream (c : Cfg) (s : St) (h : s.inpClosed = false) (e :
     (step c s (.upSend e)).isSome = true ∧ (step c s .upClose).isSome = true ∧
     (∀ a s', step c s a = some s' → a ≠ .upClose → s'.inpClosed = false) :=
   ⟨(upstream_enabled c s h e).1, (upstream_enabled c s h e).2, fun a s' hs hne => by rw [own_actions_keep_input_open c s s' a hs hne]; exact h⟩
+
+
+/-! ### the whole tree, every global schedule (product model `Model/ExecNet.lean`) -/
+open Firebolt.Exec in
+/-- **the cascade across an edge**: the Shutdown of a child or error handler begins only after the Shutdown of its parent
+has returned; by then no worker of the parent is processing or delivering and no completion is outstanding -/
+theorem tree_cascade_any_global_schedule (cfg : Path → Cfg) (caps : Path → Nat) (disc : Path → Bool) (sched : List (Path × Act)) (N : Net)
+    (hr : grun (ginit cfg caps disc) sched = some N) (p : Path) (k : Nat) (hk : k < (cfg p).K) (hW : 0 < (cfg (k :: p)).W)
+    (hs : (N.st (k :: p)).shutStarted = true) :
+    (N.st p).shutDone = true ∧ (N.st p).pending = [] ∧ (N.st p).cbs = [] ∧ ∀ w, w < (cfg p).W → ((N.st p).pc w).live = false := by
+  obtain ⟨hG, hcfg, _⟩ := reachable_ginv cfg caps disc sched N hr
+  subst hcfg
+  exact tree_cascade N hG p k hk hW hs
+
+open Firebolt.Exec in
+/-- nowhere in the tree is a closed channel sent on or closed twice -/
+theorem tree_no_panic_any_global_schedule (cfg : Path → Cfg) (caps : Path → Nat) (disc : Path → Bool) (sched : List (Path × Act)) (N : Net)
+    (hr : grun (ginit cfg caps disc) sched = some N) (p : Path) : (N.st p).panic = false := by
+  obtain ⟨hG, _, _⟩ := reachable_ginv cfg caps disc sched N hr
+  exact tree_no_panic N hG p
+
+open Firebolt.Exec in
+/-- at global quiescence everything the source handed over has been received and resolved at every node: nothing is left
+in any channel of the tree -/
+theorem tree_drained_any_global_schedule (cfg : Path → Cfg) (caps : Path → Nat) (disc : Path → Bool) (sched : List (Path × Act)) (N : Net)
+    (hr : grun (ginit cfg caps disc) sched = some N) (p : Path) (k : Nat) (hk : k < (cfg p).K)
+    (htk : Terminal (cfg (k :: p)) (N.st (k :: p))) : ((N.st p).outs k).buf = [] ∧ (N.st p).enq k = (N.st (k :: p)).recvd := by
+  obtain ⟨hG, hcfg, _⟩ := reachable_ginv cfg caps disc sched N hr
+  subst hcfg
+  obtain ⟨d1, _, d3⟩ := terminal_drained _ _ (hG.all (k :: p)) htk
+  obtain ⟨l1, _, l3⟩ := link_fields N hG.link p k hk
+  exact ⟨by rw [← l1, d3], by rw [← l3, d1]⟩
 
 end Firebolt.C03
